@@ -84,11 +84,17 @@ class Check:
     def guard(self, fn, *args, **kw):
         """Run one rule function; an analysis failure inside it (anchor vanished, construct outside the interpreter subset) is recorded
         and the remaining rules still run.  The check then exits 1 if some other rule found a violation, otherwise 2 (analysis broken)."""
-        from .microai.interp import Unsupported, PathLimit
+        from .microai.interp import Unsupported, PathLimit, Thrown, AssertFail
         try:
             return fn(*args, **kw)
-        except (AnalysisBroken, Unsupported, PathLimit) as e:
+        except (AnalysisBroken, Unsupported, PathLimit, Thrown, AssertFail) as e:
             self.broken_rules.append("%s: %s" % (getattr(fn, "__name__", "rule"), e))
+            return None
+        except (ArithmeticError, RecursionError, LookupError, TypeError, AttributeError, ValueError) as e:
+            # the rule's own code met something it was not written for (typically a changed subject): analysis broken, not a verdict
+            import traceback
+            tb = traceback.extract_tb(e.__traceback__)[-1]
+            self.broken_rules.append("%s: %s: %s (%s:%s)" % (getattr(fn, "__name__", "rule"), type(e).__name__, e, tb.filename.split("/")[-1], tb.lineno))
             return None
 
     # ------------------------------------------------------------------
